@@ -475,6 +475,7 @@ class ParserText(ParserBase):
                 date_time = date_time.replace(tzinfo=dateutil.tz.UTC)
             else:
                 date_time = date_time.astimezone(dateutil.tz.UTC)
+            date_time = date_time.replace(microsecond=0)
         except (ValueError, OverflowError, decimal.InvalidOperation) as e:
             six.raise_from(InvalidValue(value, type(self), 'value'), e)
 
